@@ -133,6 +133,11 @@ theorem C11_gen_find_or_extend_bounded : findOrExtendBounded = true := by decide
 theorem C11_gen_detail_isinstance_order :
     isinstanceOrderOK detailBases detailIsinstanceOrder = true := by decide +kernel
 
+/-- assigning a view stores the value as it is: `ParsedLump.__set__` does not iterate it and no
+`_lmp_check_*` hook consumes its argument (a generator assigned to a view reaches the writer intact) -/
+theorem C11_gen_assignment_hooks :
+    setStoresValueUntouched = true ∧ assignmentHooks.all (fun h => !h.2) = true := by decide
+
 /-! ## (iii) struct layer -/
 
 /-- **Struct round trip.** For every format and all values, if `pack` succeeds then `unpack` of the
